@@ -49,6 +49,7 @@ type Scenario struct {
 	DelayMs    int              `json:"delay_ms,omitempty"`
 	TimeoutMs  int              `json:"read_timeout_ms"`
 	ConsumerMs int              `json:"consumer_ms,omitempty"` // the application spends this long on every envelope before it takes the next one off the channel
+	SkewS      int              `json:"skew_s,omitempty"`      // scripted sender: its clock is this many seconds off the receiver's (ahead when positive) - inside the fudge unless a fault plan says otherwise
 	EmptyKeys  bool             `json:"empty_keys,omitempty"`  // the receiver has TSIG switched on (a non-nil secret map) but holds no key: no envelope can verify
 	Dial       string           `json:"dial,omitempty"`        // "" a preset connection | ok | refused : Transfer.In makes the connection itself (socket seam of the instrumented build; a preset connection elsewhere)
 	OutPaceMs  int              `json:"out_pace_ms,omitempty"` // sender "out": the application hands Transfer.Out one envelope every so often; with a fudge of 5 s the whole transfer takes longer than the fudge
@@ -115,6 +116,11 @@ func Gen(seed uint64, tier string) any {
 		}
 		sc.ClientKey, sc.ServerKey = true, true
 		sc.Fudge = core.Pick(r, 300, 300, 5, 1)
+	}
+	if sc.Alg != "" && core.Chance(r, 30) {
+		// the two ends' clocks disagree, by less than the fudge (or by exactly the fudge: still valid)
+		f := max(sc.Fudge, 1)
+		sc.SkewS = core.Pick(r, 1, -1, 2, f-1, 1-f, f/2, f)
 	}
 	if sc.Alg == "" && core.Chance(r, 6) {
 		sc.EmptyKeys = true
@@ -699,7 +705,7 @@ func (s *scriptedTask) RunEvent(time.Time) {
 			return
 		}
 		if signed {
-			b = oracle.SignTSIG(b, keyName, sc.Alg, secretGood, prior, i > 0, uint64(time.Now().Unix()), uint16(max(sc.Fudge, 1)))
+			b = oracle.SignTSIG(b, keyName, sc.Alg, secretGood, prior, i > 0, uint64(time.Now().Unix()+int64(sc.SkewS)), uint16(max(sc.Fudge, 1)))
 			if t, _, ok := oracle.FindTSIG(b); ok {
 				prior = append([]byte(nil), t.MAC...)
 			}
